@@ -150,8 +150,12 @@ Definition rewired (k : kind) (fd : N) : bool :=
   | KPipeMiddle => N.eqb fd 0 || N.eqb fd 1
   end.
 
+(* The descriptors a subshell must inherit unchanged: every descriptor the user
+   opened — below 10, or at 10 and above without close-on-exec (e.g. `exec
+   20>file`) — that the subshell kind does not rewire.  Descriptors at 10 and
+   above WITH close-on-exec are the shell's own and may differ. *)
 Definition user_fds (k : kind) (fds : list (N * (N * bool))) : list (N * (N * bool)) :=
-  filter (fun e => N.ltb (fst e) 10 && negb (rewired k (fst e))) fds.
+  filter (fun e => (N.ltb (fst e) 10 || negb (snd (snd e))) && negb (rewired k (fst e))) fds.
 
 (* the view a subshell of kind [k] has on entry, given the parent's state *)
 Definition enter_view (k : kind) (p : snap) : snap :=
